@@ -30,7 +30,7 @@ example : (match readS (lexE "(edif n (net (rename a_3_ \"a[3]\") (joined)))) tr
 theorem multibit_merge {P : Type} (base : Nat) (ws : List (List P)) (sub bits : List (Nat × List P))
     (hsub : sub.Sublist (bitNetsOf base ws)) (hperm : bits.Perm sub) (hne : bits ≠ []) :
     ∃ c, foldBits bits = some c ∧
-      (∀ b ∈ sub, c.lo ≤ b.1 ∧ c.ws.getD (b.1 - c.lo) [] = b.2) ∧
+      (∀ b ∈ sub, c.lo ≤ b.1 ∧ b.1 < c.lo + c.ws.length ∧ c.ws.getD (b.1 - c.lo) [] = b.2) ∧
       (∀ j, j < c.ws.length → (∀ b ∈ sub, b.1 ≠ c.lo + j) → c.ws.getD j [] = []) ∧
       (∃ b ∈ sub, b.1 = c.lo) ∧ (∃ b ∈ sub, b.1 + 1 = c.lo + c.ws.length) :=
   multibit_merge_perm base ws sub bits hsub hperm hne
